@@ -71,8 +71,30 @@ impl Prop for C12 {
         let n = scale(tier, 3000, 60000);
         for _ in 0..n {
             let nl = 1 + r.u(8);
-            let lines: Vec<String> = (0..nl).map(|_| gen_line(r)).collect();
-            let body = lines.join("\n");
+            let mut logical: Vec<String> = (0..nl).map(|_| gen_line(r)).collect();
+            // the HTML: lines separated by "\n" or <br> (each is exactly one line break), words sometimes wrapped in
+            // inline elements
+            let mut body = String::new();
+            for (i, l) in logical.iter().enumerate() {
+                if i > 0 {
+                    body.push_str(if r.p(25) { "<br>" } else { "\n" });
+                }
+                if r.p(25) && !l.is_empty() {
+                    // wrap a middle portion of the line in an inline element (split at a character boundary)
+                    let cs: Vec<char> = l.chars().collect();
+                    let a = r.u(cs.len());
+                    let b = a + r.u(cs.len() - a + 1);
+                    let tag = *r.pick(&[&"span", &"em", &"strong", &"code"]);
+                    let esc = |v: &[char]| -> String { v.iter().collect() };
+                    body.push_str(&format!("{}<{tag}>{}</{tag}>{}", esc(&cs[..a]), esc(&cs[a..b]), esc(&cs[b..])));
+                } else {
+                    body.push_str(l);
+                }
+            }
+            // the HTML parser drops one newline directly after <pre>
+            if body.starts_with('\n') {
+                logical.remove(0);
+            }
             let wrap = r.b(4);
             let (pre, post, prefix) = match wrap {
                 0 | 1 => ("<pre>", "</pre>", 0),
@@ -83,7 +105,7 @@ impl Prop for C12 {
             let cfg = if r.p(70) { Cfg::rich() } else { Cfg::base(Deco::Plain) };
             let w = 1 + r.u(60);
             let mut c = case(html, cfg, w, if prefix == 0 { "pre" } else { "nested-pre" });
-            c.aux = format!("{prefix}|{}", body.replace('\n', "\u{1}"));
+            c.aux = format!("{prefix}|{}", logical.join("\u{1}"));
             v.push(c);
         }
         if tier == Tier::Thorough {
@@ -104,7 +126,8 @@ impl Prop for C12 {
                     for w in (1..=20).step_by(3) {
                         let body = format!("{l1}\n{l2}");
                         let mut c = case(format!("<pre>{body}</pre>"), Cfg::rich(), w, "g-enum");
-                        c.aux = format!("0|{}", body.replace('\n', "\u{1}"));
+                        let logical_body = body.strip_prefix('\n').unwrap_or(&body);
+                        c.aux = format!("0|{}", logical_body.replace('\n', "\u{1}"));
                         v.push(c);
                     }
                 }
@@ -126,8 +149,7 @@ impl Prop for C12 {
             return out;
         }
         let avail = c.width - prefix;
-        // the HTML parser drops one newline directly after <pre>
-        let body = body.strip_prefix('\n').unwrap_or(&body).to_string();
+        // `aux` holds the logical source lines (after the parser's removal of a newline directly after <pre>)
         let src: Vec<String> = body.split('\n').map(expand_tabs).collect();
         // strip the prefix column
         let text: Vec<Vec<El>> = ls.iter().map(|l| {
